@@ -281,6 +281,12 @@ fn sched_point(site: &'static str, addr: usize, probe: &dyn Fn() -> bool) {
         if probe() {
             return;
         }
+        if nonblocking_site(site) {
+            // the code tries the lock and goes on when it is busy: let it see the busy lock
+            let mut g = lock();
+            *g.probe_failed.entry(site).or_insert(0) += 1;
+            return;
+        }
         let epoch = {
             let mut g = lock();
             *g.probe_failed.entry(site).or_insert(0) += 1;
@@ -288,6 +294,12 @@ fn sched_point(site: &'static str, addr: usize, probe: &dyn Fn() -> bool) {
         };
         reschedule(me, St::BlockedLock { site, addr, epoch }, site);
     }
+}
+
+/// Sites whose acquisition is a try-acquisition in the sources this binary was built against
+fn nonblocking_site(site: &str) -> bool {
+    static SITES: std::sync::OnceLock<std::collections::BTreeMap<String, crate::sitelint::Kind>> = std::sync::OnceLock::new();
+    SITES.get_or_init(crate::sitelint::classify).get(site) == Some(&crate::sitelint::Kind::NonBlocking)
 }
 
 /// Voluntary scheduling point (debug hook inside a running program)
